@@ -81,11 +81,30 @@ def one(data):
     # (attribute defaults declared with ATTLIST are an open known finding, C11-dtd-attribute-defaults-applied: not judged here)
     if returned and C.contains_token(val) and (C.contains_token(val, 0, (C.CANARY_TEXT,)) or (token_only_declared(doc) and b'<!attlist' not in low)):
         raise OracleFailure('%s: entity replacement text in the returned object' % name)
-    if declares and returned:
-        # only judge when the declaration is real markup (inside the prolog), not text inside CDATA/comments: re-check with a strict reader
-        i = low.find(b'<!doctype')
-        if i != -1 and low.find(b'<!entity') > i and low.find(b'<!entity') < (low.find(b']>', i) if low.find(b']>', i) != -1 else len(low)):
-            raise OracleFailure('%s: accepted a document that declares an entity' % name)
+    if declares and returned and really_declares(doc):
+        raise OracleFailure('%s: accepted a document that declares an entity' % name)
+
+
+class _Stop(Exception):
+    pass
+
+
+def really_declares(doc):
+    """an independent reader (expat with a declaration handler, stopped at the root element) decides whether the bytes `<!ENTITY` are a declaration:
+    mutation also puts them inside quoted literals (system identifiers), comments and processing instructions of the prolog, where they declare nothing"""
+    from xml.parsers import expat
+    seen = []
+    p = expat.ParserCreate()
+    p.EntityDeclHandler = lambda *a: seen.append(a[0])
+
+    def start(name, attrs):
+        raise _Stop()
+    p.StartElementHandler = start
+    try:
+        p.Parse(doc, True)
+    except (_Stop, expat.ExpatError, ValueError, LookupError):
+        pass
+    return bool(seen)
 
 
 def corpus(dirname):
